@@ -503,7 +503,8 @@ func (peer *peer) llgrRestartTimerExpired(family bgp.Family) bool {
 		if a.State.Family == family {
 			conf.AfiSafis[i].LongLivedGracefulRestart.State.PeerRestartTimerExpired = true
 		}
-		s := a.LongLivedGracefulRestart.State
+		// read the entry just updated, not the copy the range made before
+		s := conf.AfiSafis[i].LongLivedGracefulRestart.State
 		if s.Received && !s.PeerRestartTimerExpired {
 			all = false
 		}
